@@ -67,10 +67,9 @@ def attrAllowed (el a : Str) : Bool := (row attrs el).contains a
 
 /-- The schemes a URI attribute is restricted to (`none`: not a restricted attribute). -/
 def schemeList (m : Mode) (el a : Str) : Option (List Str) :=
-  let get (t : SchemeMap) : Option (List Str) := (mapGet t el).bind (mapGet · a)
-  match get schemesStrict, (if m == .compat then get schemesCompat else none) with
-  | none, none => none
-  | s, k => some (s.getD [] ++ k.getD [])
+  let s := (mapGet schemesStrict el).bind (mapGet · a)
+  let k := if m == .compat then (mapGet schemesCompat el).bind (mapGet · a) else none
+  if s.isNone && k.isNone then none else some (s.getD [] ++ k.getD [])
 
 /-- A value is acceptable iff the attribute is unrestricted or the value starts with `scheme:` for
 a permitted scheme (exact, case-sensitive spelling, no leading whitespace). -/
